@@ -20,27 +20,27 @@ import (
 
 // Result of one execution.
 type Result struct {
-	Scn      *Scenario  `json:"scenario"`
-	Prefix   []string   `json:"prefix"`
-	Chosen   []string   `json:"chosen"`
-	Alts     [][]string `json:"-"` // per choice point: enabled event names, [0] is the default
-	Diverged string     `json:"diverged,omitempty"`
-	Steps    int        `json:"steps"`
+	Scn      *Scenario     `json:"scenario"`
+	Prefix   []string      `json:"prefix"`
+	Chosen   []string      `json:"chosen"`
+	Alts     [][]string    `json:"-"` // per choice point: enabled event names, [0] is the default
+	Diverged string        `json:"diverged,omitempty"`
+	Steps    int           `json:"steps"`
 	EndT     time.Duration `json:"end_t"`
 
-	Trace []Ev  `json:"trace,omitempty"`
-	Ops   []*Op `json:"ops,omitempty"`
-	Hist  []*Msg `json:"-"`
+	Trace []Ev    `json:"trace,omitempty"`
+	Ops   []*Op   `json:"ops,omitempty"`
+	Hist  []*Msg  `json:"-"`
 	Terms []*Term `json:"-"`
 
-	Stuck     []string `json:"stuck,omitempty"` // library goroutines that did not end after teardown
-	PreStuck  []string `json:"pre_stuck,omitempty"` // library goroutines alive at the horizon although every instance was stopped
-	Spin      string   `json:"spin,omitempty"`
-	FPs       []uint64 `json:"-"`
-	Hash      uint64   `json:"hash"`
-	MaxGor    int      `json:"max_goroutines"`
-	BubbleDeadlock bool `json:"bubble_deadlock,omitempty"`
-	w         *World
+	Stuck          []string `json:"stuck,omitempty"`     // library goroutines that did not end after teardown
+	PreStuck       []string `json:"pre_stuck,omitempty"` // library goroutines alive at the horizon although every instance was stopped
+	Spin           string   `json:"spin,omitempty"`
+	FPs            []uint64 `json:"-"`
+	Hash           uint64   `json:"hash"`
+	MaxGor         int      `json:"max_goroutines"`
+	BubbleDeadlock bool     `json:"bubble_deadlock,omitempty"`
+	w              *World
 }
 
 type chooser struct {
@@ -209,7 +209,14 @@ func (w *World) enabled() []Event {
 			if op.Applied {
 				// applied before the partition: the answer is lost
 				if op.NotBefore <= now {
-					def = append(def, Event{Name: "lost:" + op.ID, tgt: op.Inst, run: func() { op.Fault = "lost"; op.resErr = nats.ErrTimeout; op.resEnt = nil; op.resW = nil; op.ResRev = 0; w.answer(op) }})
+					def = append(def, Event{Name: "lost:" + op.ID, tgt: op.Inst, run: func() {
+						op.Fault = "lost"
+						op.resErr = nats.ErrTimeout
+						op.resEnt = nil
+						op.resW = nil
+						op.ResRev = 0
+						w.answer(op)
+					}})
 				}
 				continue
 			}
@@ -274,6 +281,13 @@ func (w *World) enabled() []Event {
 		if !op.Applied {
 			if s.SplitApply && op.Kind != "Watch" {
 				alts = append(alts, Event{Name: "apply:" + op.ID, tgt: op.Inst, run: func() { w.apply(op) }})
+				// reply latency: the store applies the operation now, the reply arrives L later
+				for _, L := range s.DelayMenu {
+					L := L
+					if nb := op.TIssue + L; nb > now && op.NotBefore < nb {
+						alts = append(alts, Event{Name: fmt.Sprintf("rdelay:%s:%v", op.ID, L), tgt: op.Inst, run: func() { w.apply(op); op.NotBefore = nb }})
+					}
+				}
 			}
 			for _, k := range s.AllowErr {
 				k := k
@@ -304,6 +318,8 @@ func (w *World) enabled() []Event {
 	}
 
 	// --- watch deliveries
+	opDef := def
+	def = nil
 	ws := append([]*HWatcher(nil), w.watchers...)
 	sort.SliceStable(ws, func(i, j int) bool { return ws[i].ID < ws[j].ID })
 	for _, hw := range ws {
@@ -344,6 +360,12 @@ func (w *World) enabled() []Event {
 		if w.devAllowed(hw.Inst) && s.AllowDup && !head.Nil && hw.nDeliv < 64 {
 			alts = append(alts, dup)
 		}
+	}
+
+	if s.WatchFirst {
+		def = append(def, opDef...) // notifications overtake replies in the default environment
+	} else {
+		def = append(opDef, def...)
 	}
 
 	// --- fine mode: resume a parked goroutine
